@@ -6,6 +6,14 @@ MAC_ASSUMP = 'computational assumption, stated not proved: HMAC unforgeability /
 TECH = 'Coq proof over hand-written Gallina model + differential correspondence (extracted model vs implementation) + direct oracle'
 
 CFG = {
+ 'C02': {
+  'level': 'Theorems over every history of presentations, clean-ups and clock advances (no bound on length): an accepted authenticator is rejected as a replay for as long as its timestamp passes the skew check; a replay verdict implies the same (client, client time, service) was accepted before; distinct authenticators are independent; n presentations of one authenticator in any order yield at most one acceptance. Tie to the code: bounded-exhaustive and long random histories on a private cache (verdict and cache size after every operation vs the extracted model), every interleaving of 2-3 concurrent verifications and a clean-up over the build-tag yield points (including one inside IsReplay between look-up and insert), and 16-goroutine free-running stress.',
+  'note': 'Partial where the truth lives in the runtime: mutual exclusion of sync.RWMutex and the Go memory model are trusted; the interleaving enumeration and the stress runs are search, not proof. The model flattens client-name -> time -> services maps to a list; client names are the "/"-joined string the code uses as key. One skew value per process is assumed (the clean-up period is fixed by the first caller).',
+  'rule': 'histories over 2 clients x 2 timestamps x 2 services + clean-up + 2 clock advances: all of length <= 4 starting with a presentation (quick; 5 thorough); 300 random histories of length 5..200 with fresh and repeated authenticators across the whole skew window, other-service variants, clean-ups and advances; schedules: every interleaving over the yield points for 5-6 scenarios x 2-3 pre-states; 2000 free-running trials of 16 goroutines.',
+  'trusted': [GO_EXT + ' (sync.RWMutex, time)', 'verif-tagged hooks in /repo/v8/service (yield points, private cache, simulated clock advance by shifting stored times)'],
+  'assumptions': ['the wall clock is non-decreasing', 'the skew test of APReq.Verify runs before the cache is consulted (C01)'],
+  'partial': 'linearizability rests on the mutex (trusted) + exhaustive schedule enumeration over hook points',
+ },
  'C05': {
   'level': 'Theorems: RFC 4757 message-type encoding is the 4-byte little-endian alias map and is injective on non-aliased usages over the whole 32-bit range. The RFC implementation of all six etypes is the Coq model itself (Crypto.v on Gallina primitives); interoperability in both directions is decided on every run: the model decrypts the library\'s ciphertexts to the same plaintext, recovers the confounder and reproduces the ciphertext byte for byte (so the library decrypts what the model encrypts), for every plaintext length and the usage set.',
   'note': 'Partial: the decrypt-after-encrypt theorem for every length/usage/key (CTS and CBC round trip over a cipher hypothesis) is in progress; until then dec(enc m) = m is exercised, not proved. Trusted: Coq kernel, extraction, harness, Gallina primitives validated by vectors.',
